@@ -427,14 +427,17 @@ pub fn run(ctx: &mut RunCtx) -> Result<(), Violation> {
             let inv = |x: BlsScalar| Option::<BlsScalar>::from(x.invert()).unwrap_or(BlsScalar::zero());
             let mut pk = Vec::new();
             pk.extend_from_slice(&n.to_le_bytes());
-            pk.extend_from_slice(&(dom * 32 + 172).to_le_bytes());
+            // the announced size of an evaluations block: what is really there (the decoder cuts that
+            // many bytes off before it reads the block), or what an honest key would announce
+            let extra = f.usize(3) * 32;
+            let announced = if f.chance(3, 4) { 172 + extra as u64 } else { dom * 32 + 172 };
+            pk.extend_from_slice(&announced.to_le_bytes());
             pk.extend_from_slice(&0u64.to_le_bytes());
             pk.extend_from_slice(&dom.to_le_bytes());
             pk.extend_from_slice(&((k + 3) as u32).to_le_bytes());
             for x in [BlsScalar::from(dom), inv(BlsScalar::from(dom)), omega, inv(omega), inv(dusk_bls12_381::GENERATOR)] {
                 pk.extend_from_slice(&x.to_bytes());
             }
-            let extra = f.usize(3) * 32;
             pk.extend(std::iter::repeat(0u8).take(extra));
             let mut bytes = Vec::new();
             for v in [0u64, pk.len() as u64, 0, 0, n, n - f.below(2)] {
